@@ -53,6 +53,7 @@ RULE = (
 BOUNDS = {
     "quick": {"parents": ["A4", "B4", "C4", "D4", "E3", "F2"], "max_rows": 4, "concat_list_len": 3,
               "sub_screens": "all 2^N row subsets of each parent",
+              "sparse_probes": "screens of 300 / 771 / 1500 / 4200 / 2048 rows with 300 / 257 / 3 / 7 / 4 plates: every plates[] entry, and 9 compositions (complement of an interior block, prefix, suffix, stride, observed)",
               "held_views": "every view recipe (observed / unobserved / inverse / each plate / all 2^N subsets) x every non-empty union of unobserved plates filled in by set_observed afterwards"},
     "thorough": {"parents": ["A4", "B4", "C4", "D4", "E3", "F2", "A5", "B5"], "max_rows": 5, "concat_list_len": 3,
                  "sub_screens": "all 2^N row subsets of each parent", "held_views": "as quick, on all six parents"},
@@ -598,6 +599,9 @@ def plan(tier, seed):
     for p in names:
         if any(not r[4] for r in PARENTS[p]):
             items.append({"held": True, "parent": p})
+    # sparse probes far above the enumerated sizes: hundreds of plates, thousands of rows, plates blocked and interleaved
+    for rows, plates, blocked in ((300, 300, True), (771, 257, False), (1500, 3, True), (4200, 7, True), (2048, 4, False)):
+        items.append({"large": True, "rows": rows, "plates": plates, "blocked": blocked})
     return items
 
 
@@ -714,7 +718,82 @@ def run_held(item, col):
                         col.violation(f"C14|held|{name}", f"parent {pname} after set_observed(rows {list(fill)}): {name}() selects {rows_of_bits(got)}, mask says {rows_of_bits(want)}", case)
 
 
+# ------------------------------------------------------------------ sparse probes: many plates, many rows
+def _large_screen(n_rows, n_plates, blocked):
+    rows = []
+    for i in range(n_rows):
+        p = (i * n_plates // n_rows) if blocked else (i % n_plates)
+        rows.append((f"s{i % 3}", f"pl{p:04d}", (("a", 1.0 + (i % 4)), ("b", 1.0) if i % 5 else (CTL, 0.0)), round(0.001 * (i % 977) + 0.01, 5), p % 2 == 0))
+    return make_screen(rows, control=CTL)
+
+
+def _view_matches(screen, v, sel, what, col, case):
+    """attributes, size and materialisation of view v against the parent's rows at boolean selection sel"""
+    sel = np.asarray(sel, dtype=bool)
+    if not well_formed(v, len(sel)) or not np.array_equal(np.asarray(v.selection_vector, dtype=bool), sel):
+        got = np.flatnonzero(np.asarray(getattr(v, "selection_vector", []), dtype=bool)).tolist()
+        col.violation("C14|large|selection", f"{what}: selects {len(got)} rows (first {got[:6]}), reference selects {int(sel.sum())} rows (first {np.flatnonzero(sel)[:6].tolist()})", case)
+        return
+    for a in ATTRS:
+        if tolist(getattr(v, a)) != tolist(np.asarray(getattr(screen, a))[sel]):
+            col.violation(f"C14|large|{a}", f"{what}: attribute {a} differs from the parent's values at the selected rows", case)
+            return
+    if sel.any():
+        m = v.to_screen()
+        for a in ROW_ATTRS:
+            got, want = tolist(getattr(m, a)), tolist(np.asarray(getattr(screen, a))[sel])
+            if got != want:
+                k = next((i for i, (x, y) in enumerate(zip(got, want)) if x != y), min(len(got), len(want)))
+                col.violation(f"C14|large|to_screen|{a}", f"{what}: the materialised screen has {len(got)} rows, the view {len(want)}; first difference in {a} at row {k}", case)
+                return
+
+
+def run_large(item, col):
+    n_rows, n_plates, blocked = item["rows"], item["plates"], item["blocked"]
+    screen = _large_screen(n_rows, n_plates, blocked)
+    case = {"large": True, "rows": n_rows, "plates": n_plates, "blocked": blocked}
+    ids = np.asarray(screen.plate_ids)
+    plates = screen.plates
+    col.evaluations += 1
+    col.states += 1
+    if len(plates) != n_plates:
+        col.violation("C14|large|plates-count", f"{n_plates} plates, Screen.plates lists {len(plates)}", case)
+    seen = []
+    for p in plates:
+        col.transitions += 1
+        pid = int(p.plate_id)
+        seen.append(pid)
+        _view_matches(screen, p, ids == pid, f"{n_plates} plates / {n_rows} rows: plates[] entry with id {pid}", col, case)
+        if col.n_violations:
+            break
+    if sorted(seen) != sorted(set(ids.tolist())) and not col.n_violations:
+        col.violation("C14|large|plates-ids", f"Screen.plates lists ids {sorted(seen)[:8]}..., the screen has {sorted(set(ids.tolist()))[:8]}...", case)
+    # compositions whose selection is the complement of an interior block, a prefix, a suffix, a stride
+    uniq = sorted(set(ids.tolist()))
+    first, mid, last = uniq[0], uniq[len(uniq) // 2], uniq[-1]
+    gp = screen.get_plate
+    probes = [
+        ("interior plate inverted", lambda: gp(mid).invert(), ids != mid),
+        ("first plate combined with last", lambda: gp(first).combine(gp(last)), (ids == first) | (ids == last)),
+        ("all rows but one interior row", lambda: screen.subset(np.arange(n_rows) != n_rows // 2), np.arange(n_rows) != n_rows // 2),
+        ("concat of every plate but an interior one", lambda: ScreenSubset.concat([gp(u) for u in uniq if u != mid]), ids != mid),
+        ("prefix", lambda: screen.subset(np.arange(n_rows) < n_rows // 3), np.arange(n_rows) < n_rows // 3),
+        ("suffix", lambda: screen.subset(np.arange(n_rows) >= n_rows // 3), np.arange(n_rows) >= n_rows // 3),
+        ("every third row", lambda: screen.subset(np.arange(n_rows) % 3 == 1), np.arange(n_rows) % 3 == 1),
+        ("observed view", lambda: screen.subset_observed(), np.asarray(screen.observation_mask, dtype=bool).copy()),
+        ("unobserved view inverted", lambda: screen.subset_unobserved().invert(), np.asarray(screen.observation_mask, dtype=bool).copy()),
+    ]
+    for label, make, sel in probes:
+        col.evaluations += 1
+        col.transitions += 1
+        _view_matches(screen, make(), sel, f"{n_plates} plates / {n_rows} rows: {label}", col, case)
+        col.nontriv("large", n_rows, n_plates, blocked, label)
+    col.outcome("large", n_rows, n_plates, blocked)
+
+
 def run_item(item, col, tier):
+    if item.get("large"):
+        return run_large(item, col)
     if item.get("held"):
         return run_held(item, col)
     for sub in item["subs"]:
@@ -730,6 +809,8 @@ def run_item(item, col, tier):
 
 
 def replay(case, col):
+    if case.get("large"):
+        return run_large(case, col)
     if case.get("held"):
         return run_held({"held": True, "parent": case["parent"]}, col)
     ctx = Ctx(case["parent"], case["sub"])
